@@ -19,6 +19,7 @@ func checkC07(p *Prog, r *Report) {
 	c07Writers(p, r)
 	mineralBooks(p, r, "C07.R8")
 	nmoveSweeps(p, r, "C07.R9")
+	uptakeReset(p, r, "C07.R10")
 	// "finite": the partial operations of the nitrogen routines stay inside their domains (shared machinery with C06.R6)
 	domainRule(p, r, "C07.R7", "the nitrogen routines (denitrification, mineralisation, transport, daily bookkeeping)", []string{"hermes.Denitr", "hermes.Denitmo", "hermes.mineral", "hermes.nmove", "hermes.Nitro"}, 60)
 }
